@@ -128,7 +128,12 @@ def handle (stream : String) (args : List String) : Option String :=
         let strs := (enumerate alpha bound.toNat).1
         let sb := strs.map (searchB tree)
         let fb := strs.map fun x => matchB tree [] x []
-        some ("n" ++ toString strs.length ++ " S" ++ String.ofList (bitsHex sb) ++ " F" ++ String.ofList (bitsHex fb))
+        -- the foreign rune (last but one of the alphabet) written as a stray byte: read as U+FFFD
+        let bb := match alpha.reverse with
+          | _ :: f :: _ => strs.map fun x => searchB tree (decodeStr (x.map fun c => if c = f then GoUnit.bad 255 else GoUnit.ch c))
+          | _ => strs.map fun _ => false
+        some ("n" ++ toString strs.length ++ " S" ++ String.ofList (bitsHex sb) ++ " F" ++ String.ofList (bitsHex fb)
+          ++ " B" ++ String.ofList (bitsHex bb))
     | _, _, _ => some "bad-arg"
   | _, _ => none
 
